@@ -141,7 +141,7 @@ def probe_spec(backend: str):
         sp['pre_cached'] = []
         sp['lab']['bust_cache'] = False
         return sp
-    base = specs.dag_spec(min_nodes=1, max_nodes=4 if backend == 'spawn' else 7, backends=(backend,), types=['NN', 'N2', 'CtxSub', 'CtxSub2', 'Z', 'CtxWrap'],
+    base = specs.dag_spec(min_nodes=1, max_nodes=4 if backend == 'spawn' else 7, backends=(backend,), types=['NN', 'N2', 'CtxSub', 'CtxSub2', 'Z', 'CtxWrap', 'CtxSubMix', 'CtxSubKid'],
                           pre_cache=False, bust=False, allow_fresh_same_parent=True, wide=(backend != 'serial'),
                           max_workers=(1, 1, 2) if backend == 'spawn' else (1, 2, 3, None))
     return st.builds(fix, base, st.dictionaries(st.sampled_from(['a', 'b', 'c', 'zz', 'other']), CTX_VALUES, max_size=4), st.booleans())
